@@ -33,3 +33,7 @@ func zzDeliver(s *PfcpServer, msg message.Message, addr net.Addr, seq uint32) {
 	err := s.reqDispacher(msg, addr)
 	_ = err
 }
+
+func zzAssocReq(seq uint32, nodeID string) *message.AssociationSetupRequest {
+	return message.NewAssociationSetupRequest(seq, ie.NewNodeID(nodeID, "", ""))
+}
